@@ -1475,8 +1475,9 @@ func lemmaForwardSession(raw *rawEnvelope) (e *Session, e3 *Session, accepted bo
 //@   pure
 //@   ensures result == t.connected
 
+//@ spec fn isKind(e envelope) bool = istype(e, *Message) || istype(e, *Notification) || istype(e, *RequestCommand) || istype(e, *ResponseCommand) || istype(e, *Session)
 //@ method Transport.Send(t, ctx, e) (err)
-//@   requires e != nil && !payloadnil(e)
+//@   requires e != nil && !payloadnil(e) && isKind(e)
 //@   modifies t.nSent, t.lastSent, t.nSentSes, t.lastSes, t.connected, t.stage, t.offerEnc, t.offerComp, t.offerSchemes, t.confEnc, t.confComp
 //@   ensures err == nil && istype(e, *Session) ==> t.stage == sesStage(e.(*Session))
 //@   ensures err == nil && istype(e, *Session) && sesStage(e.(*Session)) == 1 ==> t.offerEnc == e.(*Session).EncryptionOptions && t.offerComp == e.(*Session).CompressionOptions
@@ -1496,7 +1497,7 @@ func lemmaForwardSession(raw *rawEnvelope) (e *Session, e3 *Session, accepted bo
 //@ method Transport.Receive(t, ctx) (env, err)
 //@   modifies t.nRecv, t.lastRecv, t.connected, recvClock
 //@   ensures recvClock == old(recvClock) + 1
-//@   ensures err == nil ==> env != nil && !payloadnil(env) && t.lastRecv == env && t.nRecv == old(t.nRecv) + 1
+//@   ensures err == nil ==> env != nil && !payloadnil(env) && isKind(env) && t.lastRecv == env && t.nRecv == old(t.nRecv) + 1
 //@   ensures err != nil ==> t.lastRecv == old(t.lastRecv) && t.nRecv == old(t.nRecv)
 //@   ensures t.connected ==> old(t.connected)
 //@   note a received envelope is a non-nil pointer of one of the five envelope kinds (closed world: interface envelope has unexported methods)
@@ -2065,3 +2066,237 @@ func lemmaForwardSession(raw *rawEnvelope) (e *Session, e3 *Session, accepted bo
 //@   ensures [C14] @nocallbacks estN == old(estN) && srv.config.Established != nil ==> finN == old(finN) && !c.transport.connected
 //@   ensures [C14] @atmostonce estN == old(estN) || (estN == old(estN) + 1 && estID == c.sessionID)
 //@   ensures [C14] @finonce finN == old(finN) || finN == old(finN) + 1
+
+// ---------------------------------------------------------------------------
+// C04 (per-hop conservation), C05 (command matching), C06 (data only while established)
+// ---------------------------------------------------------------------------
+
+//@ spec fn chankey(ch chan *ResponseCommand) string = uninterpreted
+//@ spec fn neverclosed(ch chan *ResponseCommand) bool = uninterpreted
+//@ census [C05] closers channel.inRespCmdChan : receiveFromTransport  ## the only close of a chan *ResponseCommand in the package: reply channels are never closed
+
+// The pending-command table is protected by processingCmdsMu; every entry maps
+// an id to a reply channel created for exactly that id.
+//@ struct channel
+//@   monitor processingCmdsMu protects processingCmds mapinv v != nil && chankey(v) == k
+
+//@ func (*channel).sendToTransport
+//@   props C04 C06
+//@   requires c != nil && (e != nil ==> isKind(e))
+//@   panics only-if e == nil || payloadnil(e)
+//@   modifies c.transport.nSent, c.transport.lastSent, c.transport.nSentSes, c.transport.lastSes, c.transport.connected, c.transport.stage, c.transport.offerEnc, c.transport.offerComp, c.transport.offerSchemes, c.transport.confEnc, c.transport.confComp
+//@   oncall [C04] Transport.Send : locked(c.sendMu)
+//@   ensures [C06] @onlyestablished !(old(transportOK(c)) && old(c.state) == SessionStateEstablished) ==> result != nil
+//@   ensures [C06] @nothingemitted result != nil ==> c.transport.nSent == old(c.transport.nSent) && c.transport.lastSent == old(c.transport.lastSent)
+//@   ensures [C04] @onceunchanged result == nil ==> c.transport.nSent == old(c.transport.nSent) + 1 && c.transport.lastSent == e
+
+//@ func (*channel).SendMessage
+//@   props C04 C06
+//@   requires c != nil
+//@   panics only-if msg == nil
+//@   modifies c.transport.nSent, c.transport.lastSent, c.transport.nSentSes, c.transport.lastSes, c.transport.connected, c.transport.stage, c.transport.offerEnc, c.transport.offerComp, c.transport.offerSchemes, c.transport.confEnc, c.transport.confComp
+//@   ensures [C06] !(old(transportOK(c)) && old(c.state) == SessionStateEstablished) ==> result != nil
+//@   ensures [C06] result != nil ==> c.transport.nSent == old(c.transport.nSent)
+//@   ensures [C04] result == nil ==> c.transport.nSent == old(c.transport.nSent) + 1 && istype(c.transport.lastSent, *Message) && c.transport.lastSent.(*Message) == msg
+
+//@ func (*channel).SendNotification
+//@   props C04 C06
+//@   requires c != nil
+//@   panics only-if not == nil
+//@   modifies c.transport.nSent, c.transport.lastSent, c.transport.nSentSes, c.transport.lastSes, c.transport.connected, c.transport.stage, c.transport.offerEnc, c.transport.offerComp, c.transport.offerSchemes, c.transport.confEnc, c.transport.confComp
+//@   ensures [C06] !(old(transportOK(c)) && old(c.state) == SessionStateEstablished) ==> result != nil
+//@   ensures [C06] result != nil ==> c.transport.nSent == old(c.transport.nSent)
+//@   ensures [C04] result == nil ==> c.transport.nSent == old(c.transport.nSent) + 1 && istype(c.transport.lastSent, *Notification) && c.transport.lastSent.(*Notification) == not
+
+//@ func (*channel).SendRequestCommand
+//@   props C04 C05 C06
+//@   requires c != nil
+//@   panics only-if cmd == nil
+//@   modifies c.transport.nSent, c.transport.lastSent, c.transport.nSentSes, c.transport.lastSes, c.transport.connected, c.transport.stage, c.transport.offerEnc, c.transport.offerComp, c.transport.offerSchemes, c.transport.confEnc, c.transport.confComp
+//@   ensures [C06] !(old(transportOK(c)) && old(c.state) == SessionStateEstablished) ==> result != nil
+//@   ensures [C06] result != nil ==> c.transport.nSent == old(c.transport.nSent)
+//@   ensures [C04] result == nil ==> c.transport.nSent == old(c.transport.nSent) + 1 && istype(c.transport.lastSent, *RequestCommand) && c.transport.lastSent.(*RequestCommand) == cmd
+
+//@ func (*channel).SendResponseCommand
+//@   props C04 C06
+//@   requires c != nil
+//@   panics only-if cmd == nil
+//@   modifies c.transport.nSent, c.transport.lastSent, c.transport.nSentSes, c.transport.lastSes, c.transport.connected, c.transport.stage, c.transport.offerEnc, c.transport.offerComp, c.transport.offerSchemes, c.transport.confEnc, c.transport.confComp
+//@   ensures [C06] !(old(transportOK(c)) && old(c.state) == SessionStateEstablished) ==> result != nil
+//@   ensures [C06] result != nil ==> c.transport.nSent == old(c.transport.nSent)
+//@   ensures [C04] result == nil ==> c.transport.nSent == old(c.transport.nSent) + 1 && istype(c.transport.lastSent, *ResponseCommand) && c.transport.lastSent.(*ResponseCommand) == cmd
+
+// ---- C05 ----
+
+//@ interface RequestCommandSender
+//@ method RequestCommandSender.SendRequestCommand(s, ctx, cmd) (err)
+//@   modifies nothing
+//@   note the sender used by processCommand is the channel itself (ProcessCommand); its effect on the transport is verified as (*channel).SendRequestCommand
+
+//@ func (*channel).processCommand
+//@   props C05
+//@   requires c != nil && sender != nil && c.processingCmds != nil && ctx != nil
+//@   panics only-if reqCmd == nil || reqCmd.ID == ""
+//@   modifies *c.processingCmds
+//@   ghostinit respChan : chankey(respChan) == reqCmd.ID && neverclosed(respChan)
+//@   chaninv-local respChan : v != nil && v.ID == chankey(ch)
+//@   ensures [C05] @ownresponse err == nil ==> result0 != nil && result0.ID == reqCmd.ID
+//@   checks [C05] @duprejected inset(domatlock(channel.processingCmds), reqCmd.ID) ==> err != nil && tablewrites(channel.processingCmds) == 0
+//@   checks [C05] @reusable !inset(domatlock(channel.processingCmds), reqCmd.ID) ==> !inset(domatunlock(channel.processingCmds), reqCmd.ID)
+
+//@ func (*channel).trySubmitCommandResult
+//@   props C04 C05
+//@   requires c != nil && c.processingCmds != nil
+//@   modifies *c.processingCmds
+//@   chaninv-local respChan : v != nil && v.ID == chankey(ch)
+//@   checks [C05] @handedoveronce result ==> nsent(local.respChan) == 1 && lastsent(local.respChan) == respCmd
+//@   checks [C05] @sentonlywhenmatched !result ==> nsent(local.respChan) == 0
+//@   ensures [C05] result ==> respCmd != nil
+
+//@ func (*channel).ProcessCommand
+//@   props C05
+//@   requires c != nil && c.processingCmds != nil && ctx != nil
+//@   panics only-if reqCmd == nil || reqCmd.ID == ""
+//@   modifies *c.processingCmds
+//@   ensures [C05] err == nil ==> result0 != nil && result0.ID == reqCmd.ID
+
+// ---- the receiver goroutine (one hop of C04; C05 unmatched responses; C06 streams) ----
+
+//@ spec fn streamsOpen(c *channel, done chan<- struct{}) bool = done != nil && c.inMsgChan != nil && c.inNotChan != nil && c.inReqCmdChan != nil && c.inRespCmdChan != nil && c.inSesChan != nil && !closed(done) && !closed(c.inMsgChan) && !closed(c.inNotChan) && !closed(c.inReqCmdChan) && !closed(c.inRespCmdChan) && !closed(c.inSesChan)
+//@ spec fn onlyOn(m int, n int, q int, p int, s int) bool = nsent(channel.inMsgChan) == m && nsent(channel.inNotChan) == n && nsent(channel.inReqCmdChan) == q && nsent(channel.inRespCmdChan) == p && nsent(channel.inSesChan) == s
+
+//@ func receiveFromTransport
+//@   props C04 C05 C06
+//@   requires c != nil && ctx != nil && c.transport != nil && !payloadnil(c.transport) && c.processingCmds != nil && streamsOpen(c, done)
+//@   modifies c.state, c.transport.nRecv, c.transport.lastRecv, recvClock, c.transport.connected, *c.processingCmds, closed(done), closed(c.inMsgChan), closed(c.inNotChan), closed(c.inReqCmdChan), closed(c.inRespCmdChan), closed(c.inSesChan)
+//@   loop 0 invariant streamsOpen(c, done) && c.transport != nil && !payloadnil(c.transport) && c.processingCmds != nil
+//@   loop 0 step [C04] @onereceive c.transport.nRecv == atiter(c.transport.nRecv) + 1
+//@   loop 0 step [C04] @message istype(c.transport.lastRecv, *Message) ==> onlyOn(1, 0, 0, 0, 0) && lastsent(channel.inMsgChan) == c.transport.lastRecv.(*Message)
+//@   loop 0 step [C04] @notification istype(c.transport.lastRecv, *Notification) ==> onlyOn(0, 1, 0, 0, 0) && lastsent(channel.inNotChan) == c.transport.lastRecv.(*Notification)
+//@   loop 0 step [C04] @request istype(c.transport.lastRecv, *RequestCommand) ==> onlyOn(0, 0, 1, 0, 0) && lastsent(channel.inReqCmdChan) == c.transport.lastRecv.(*RequestCommand)
+//@   loop 0 step [C04,C05] @response istype(c.transport.lastRecv, *ResponseCommand) ==> nsent(channel.inMsgChan) == 0 && nsent(channel.inNotChan) == 0 && nsent(channel.inReqCmdChan) == 0 && nsent(channel.inSesChan) == 0 && nsent(channel.inRespCmdChan) + ntrue("(*channel).trySubmitCommandResult") == 1
+//@   loop 0 step [C05] @unmatched istype(c.transport.lastRecv, *ResponseCommand) && nsent(channel.inRespCmdChan) == 1 ==> lastsent(channel.inRespCmdChan) == c.transport.lastRecv.(*ResponseCommand)
+//@   checks [C06] @streamsclosed closed(done) && closed(c.inMsgChan) && closed(c.inNotChan) && closed(c.inReqCmdChan) && closed(c.inRespCmdChan) && closed(c.inSesChan)
+
+// Syntactic census (C06): inbound streams are fed only by the receiver, the
+// receiver is spawned only by startReceiver, which is referenced only where the
+// state becomes established.
+//@ census [C06] senders channel.inMsgChan : receiveFromTransport
+//@ census [C06] senders channel.inNotChan : receiveFromTransport
+//@ census [C06] senders channel.inReqCmdChan : receiveFromTransport
+//@ census [C06] senders channel.inRespCmdChan : receiveFromTransport
+//@ census [C06] senders channel.inSesChan : receiveFromTransport
+//@ census [C06] callers receiveFromTransport : (*channel).startReceiver
+//@ census [C06] callers (*channel).startReceiver : (*channel).setState
+//@ census [C03,C07] writers channel.state : newChannel, (*channel).setStateWLock
+//@ census [C03,C07] callers (*channel).setStateWLock : (*channel).setState, receiveFromTransport
+//@ census [C03,C07] callers (*channel).setState : (*ServerChannel).sendNegotiatingOptionsSession, (*ServerChannel).sendAuthenticatingSession, (*ServerChannel).sendEstablishedSession, (*ServerChannel).FinishSession, (*ServerChannel).FailSession, (*ClientChannel).receiveSessionFromServer
+
+//@ func (*channel).setState
+//@   onref [C06] (*channel).startReceiver : state == SessionStateEstablished
+
+// ---------------------------------------------------------------------------
+// C12 - the TCP byte stream wrappers: io.Writer / io.Reader byte accounting of
+// ctxConn for every result sequence of the underlying net.Conn
+// ---------------------------------------------------------------------------
+
+//@ func (*ctxConn).Write
+//@   props C12
+//@   requires c != nil && c.conn != nil && c.writeCtx != nil
+//@   modifies c.conn.wcount
+//@   loop 0 invariant 0 <= n && n <= len(b) && c.conn.wcount == old(c.conn.wcount) + n
+//@   oncall [C12] net.Conn.Write : suffixof(a_b, b, c.conn.wcount - old(c.conn.wcount))
+//@   ensures [C12] @accounting c.conn.wcount == old(c.conn.wcount) + n
+//@   ensures [C12] @shortimplieserr n < len(b) ==> err != nil
+//@   ensures 0 <= n && n <= len(b)
+
+//@ func (*ctxConn).Read
+//@   props C12
+//@   requires c != nil && c.conn != nil && c.readCtx != nil
+//@   modifies c.conn.rcount
+//@   loop 0 invariant c.conn.rcount == old(c.conn.rcount)
+//@   ensures [C12] @accounting c.conn.rcount == old(c.conn.rcount) + n
+//@   ensures 0 <= n && n <= len(b)
+
+// ---------------------------------------------------------------------------
+// TCP transport: C12 (errors are reported, eof), C16 (read budget), C04 (one
+// Encode / one Decode per call), refinement of the Transport model
+// ---------------------------------------------------------------------------
+
+//@ spec fn tcpInv(t *tcpTransport) bool = t != nil && t.ReadLimit > 0 && 0 <= t.limitedReader.N && t.limitedReader.N <= t.ReadLimit && t.decoder != nil && t.encoder != nil && t.ctxConn != nil && t.ctxConn.conn != nil && istype(t.decoder.src, *io.LimitedReader) && t.decoder.src.(*io.LimitedReader) == &t.limitedReader
+
+//@ func NewCtxConn
+//@   props C12 C16
+//@   panics only-if conn == nil
+//@   modifies nothing
+//@   ensures result != nil && fresh(result) && result.conn == conn && result.readCtx != nil && result.writeCtx != nil
+
+//@ func (*ctxConn).SetReadContext
+//@   props C12
+//@   requires c != nil
+//@   panics only-if ctx == nil
+//@   modifies c.readCtx, c.readCancel
+//@   ensures c.readCtx == ctx
+
+//@ func (*ctxConn).SetWriteContext
+//@   props C12
+//@   requires c != nil
+//@   panics only-if ctx == nil
+//@   modifies c.writeCtx, c.writeCancel
+//@   ensures c.writeCtx == ctx
+
+//@ callback role ctxCancel() () : field ctxConn.readCancel, field ctxConn.writeCancel
+//@   modifies nothing
+
+//@ func (*tcpTransport).Connected
+//@   props C12 C16
+//@   requires t != nil
+//@   ensures result == (t.conn != nil && !t.eof)
+//@   modifies nothing
+
+//@ func (*tcpTransport).ensureOpen
+//@   props C12 C16
+//@   requires t != nil
+//@   ensures (result == nil) == (t.conn != nil && !t.eof)
+//@   modifies nothing
+
+//@ func (*tcpTransport).setConn
+//@   props C16
+//@   requires t != nil && conn != nil && t.ReadLimit >= 0
+//@   modifies t.conn, t.ctxConn, t.encoder, t.decoder, t.limitedReader, t.ReadLimit, t.limitedReader.consumed
+//@   ensures [C16] @armed tcpInv(t) && t.limitedReader.N == t.ReadLimit
+//@   ensures [C16] @defaultlimit old(t.ReadLimit) == 0 ==> t.ReadLimit == DefaultReadLimit
+//@   ensures [C16] @keptlimit old(t.ReadLimit) != 0 ==> t.ReadLimit == old(t.ReadLimit)
+//@   ensures t.conn == conn
+
+//@ func (*tcpTransport).Receive
+//@   props C01 C12 C16
+//@   requires tcpInv(t)
+//@   panics only-if ctx == nil
+//@   modifies t.eof, t.limitedReader.N, t.limitedReader.consumed, t.ctxConn.readCtx, t.ctxConn.readCancel
+//@   oncall [C04] (*encoding/json.Decoder).Decode[*rawEnvelope] : true
+//@   ensures [C16] @bounded t.limitedReader.consumed - old(t.limitedReader.consumed) <= old(t.limitedReader.N) && old(t.limitedReader.N) <= t.ReadLimit
+//@   ensures [C16] @rearmed result1 == nil ==> t.limitedReader.N == t.ReadLimit
+//@   ensures [C16] @neverenlarged result1 != nil ==> t.limitedReader.N <= old(t.limitedReader.N) || t.limitedReader.N == t.ReadLimit
+//@   ensures [C12] @kinds result1 == nil ==> result0 != nil && !payloadnil(result0) && isKind(result0)
+//@   ensures tcpInv(t)
+
+//@ func (*tcpTransport).Send
+//@   props C04 C12
+//@   requires t != nil && (t.conn != nil && !t.eof ==> t.encoder != nil && t.ctxConn != nil)
+//@   panics only-if ctx == nil || e == nil || payloadnil(e)
+//@   modifies t.eof, t.ctxConn.writeCtx, t.ctxConn.writeCancel
+//@   oncall [C04] (*encoding/json.Encoder).Encode : a_v == e
+//@   ensures [C12] @notopen old(t.conn == nil || t.eof) ==> result != nil
+
+//@ func (*tcpTransport).Close
+//@   props C12
+//@   requires t != nil && (t.conn != nil && !t.eof ==> t.ctxConn != nil && t.ctxConn.conn != nil)
+//@   modifies t.conn
+//@   ensures t.conn == nil || result != nil
+//@   ensures !(t.conn != nil && !t.eof)
+
+//@ func (*ctxConn).Close
+//@   props C12
+//@   requires c != nil && c.conn != nil
+//@   modifies nothing
